@@ -132,7 +132,10 @@ func internalMarshal(v any) (*internalStruct, error) {
 	for rt.Kind() == reflect.Ptr {
 		ret.PointerNum++
 		if rv.IsNil() {
+			rt = rt.Elem()
 			for rt.Kind() == reflect.Ptr {
+				// count the levels below the nil pointer too, so that the decoded value has the same type
+				ret.PointerNum++
 				rt = rt.Elem()
 			}
 			key, ok := rm[rt]
